@@ -23,6 +23,7 @@ static inline myth_thread_t myth_context_to_thread(myth_running_env_t env,myth_c
 
 static inline void myth_desc_join_set(myth_thread_t thread,myth_thread_t wait_thread)
 {
+  MYTH_VERIF_POINT(mythv_p_desc_field, thread->join_thread);
   thread->join_thread=wait_thread;
 }
 
@@ -38,11 +39,13 @@ static inline int myth_desc_is_runnable(myth_thread_t thread)
 
 static inline int myth_desc_is_finished(myth_thread_t thread)
 {
+  MYTH_VERIF_POINT(mythv_p_status_load, thread->status);
   return thread->status>=MYTH_STATUS_FREE_READY;
 }
 
 static inline void myth_desc_set_detached(myth_thread_t th)
 {
+  MYTH_VERIF_POINT(mythv_p_desc_field, th->detached);
   th->detached=1;
 }
 
